@@ -863,16 +863,46 @@ func runHistory(c *drv.Ctx, wp **drv.Worker, r *rand.Rand, tag string, nops int,
 		x.srcs = append(x.srcs, s)
 		return nil
 	}
+	// twin sources: two instances of one type created back to back, so that the instance id following the first source's
+	// belongs to an instance that holds data of its own when the first is copied (not to an empty reference instance)
+	mkTwin := func(typ, a, b string) error {
+		var ss []*src
+		for _, name := range []string{a, b} {
+			s := &src{Type: typ, Name: name, Empty: name + "-empty", Eps: endpointsFor(typ)}
+			if err := cl.NewInstance(h.Root, typ, s.Name, nil); err != nil {
+				return err
+			}
+			ss = append(ss, s)
+		}
+		for _, s := range ss {
+			if err := cl.NewInstance(h.Root, typ, s.Empty, map[string]string{}); err != nil {
+				return err
+			}
+			x.srcs = append(x.srcs, s)
+		}
+		c.Count("twin_source_histories", 1)
+		return nil
+	}
 	for _, t := range types {
 		switch t {
 		case "keyvalue":
-			err = mk("keyvalue", "kv", nil, nil)
+			if r.Intn(2) == 0 {
+				err = mkTwin("keyvalue", "kv", "kvb")
+			} else {
+				err = mk("keyvalue", "kv", nil, nil)
+			}
 		case "keyvalue-unversioned":
 			// source is versioned=false (all uuids map to the root); the copy is created with default settings
 			err = mk("keyvalue", "ukv", map[string]string{"versioned": "false"}, nil)
 		case "uint8blk":
 			bs := fmt.Sprintf("%d,%d,%d", imgBS, imgBS, imgBS)
-			err = mk("uint8blk", "img", map[string]string{"BlockSize": bs}, []string{"BlockSize=" + bs})
+			if r.Intn(2) == 0 {
+				// a non-default background value: what a read returns where nothing is stored is a setting of the instance
+				err = mk("uint8blk", "img", map[string]string{"BlockSize": bs, "Background": "9"}, []string{"BlockSize=" + bs, "Background=9"})
+				c.Count("image_sources_with_background_9", 1)
+			} else {
+				err = mk("uint8blk", "img", map[string]string{"BlockSize": bs}, []string{"BlockSize=" + bs})
+			}
 		case "annotation":
 			err = mk("annotation", "ann", nil, nil)
 		case "roi":
